@@ -547,6 +547,40 @@ func TestPropSuperfluid(t *testing.T) {
 				cs.Class("validator-slashed")
 				hist = append(hist, fmt.Sprintf("SLASH %s %s", val[len(val)-4:], frac))
 			},
+			// a validator is jailed (downtime) without a slash, or unjailed: the exchange rate stays 1, so everything the
+			// property says about the stake of its intermediary accounts keeps holding - top-ups and upward refreshes included
+			"jail": func(rt *rapid.T) {
+				if rapid.IntRange(0, 2).Draw(rt, "jailGate") != 0 {
+					rt.Skip("jailings are rare events")
+				}
+				val := valAddrs[rapid.IntRange(0, len(valAddrs)-1).Draw(rt, "val")]
+				va, _ := sdk.ValAddressFromBech32(val)
+				v, err := sk.GetValidator(c.Ctx, va)
+				if err != nil {
+					rt.Skip("no such validator")
+				}
+				cons, _ := v.GetConsAddr()
+				err = c.Try(func(ctx sdk.Context) error {
+					if v.IsJailed() {
+						if err := sk.Unjail(ctx, cons); err != nil {
+							return err
+						}
+					} else {
+						if err := sk.Jail(ctx, cons); err != nil {
+							return err
+						}
+					}
+					// (the validator keeps its bonded status: the staking end blocker, which would move it to unbonding, is not
+					// run - the test helper's validators are not backed by the bonded pool in the way it expects)
+					return nil
+				})
+				if err != nil {
+					cs.Class("jail-failed")
+					return
+				}
+				cs.Class("validator-jailed-or-unjailed")
+				hist = append(hist, fmt.Sprintf("JAIL/UNJAIL %s (was jailed=%v)", val[len(val)-4:], v.IsJailed()))
+			},
 			"time": func(rt *rapid.T) {
 				dt := time.Duration(rapid.Int64Range(1, int64(30*24*time.Hour)).Draw(rt, "dt"))
 				if rapid.Bool().Draw(rt, "short") {
